@@ -126,6 +126,13 @@ CHECKS = {
         technique="Lean 4 theorems about a hand-written executable model + exact correspondence on the tapped solver call",
         ref="DESIGN.md §5 C04",
     ),
+    "C01": dict(
+        category="proof",
+        text="Half-cell bound for ALL lattice placements: for any origin, spacing h > 0, centre c and threshold q, the cell centres with (x-c)^2 < q form a run whose mean differs from c by strictly less than h/2 (lattice_run_mean); summed over the fibres of a ball along one axis (every fibre is such a run with its own q = R^2 - rest) the centre of mass of all covered cells lies within half a cell of c along that axis - any dimension, anisotropic spacing (lattice_fibres_com, lattice_com_within_half_cell); on radial grids the located radius m dr is within dr/2 of R (C01_radial) and the sphere of that radius has exactly the volume of the covered shells (shells_telescope with the regenerated volume formula vanishing at 0). One droplet per component, volume = covered cells x cell volume and position = unwrapped centre of mass modulo the period are C02's theorems, the covered cells are C03's rendering. The model pipeline (exact rational inside -> raster labelling -> merge loop) is run against the real get_phasefield -> locate_droplets; predicates: count, exact volume, half-spacing bound per axis under the periodic metric, position inside the box, on Cartesian 1-3-D (all periodicities, anisotropic, offsets, straddling droplets), polar/spherical (centred) and cylindrical (on-axis) grids; exhaustive lattice offsets in the thorough tier. Exposed D2 (fixed in /repo a0c22cd).",
+        note="Trusted: Lean kernel; propext/Classical.choice/Quot.sound; that the covered cells of a ball split into fibres that are runs of a symmetric condition is used as the (elementary) geometric input of lattice_fibres_com; 'well-separated' is made explicit by the generator's margins (the theorem that the stated separation prevents adjacency/overlap of located spheres is not proved); float evaluation of centre of mass / from_volume compared to 1e-12 / 1e-9.",
+        technique="Lean 4 theorems (lattice half-cell lemma, telescoping) + model-pipeline correspondence + independent-metric predicates",
+        ref="DESIGN.md §5 C01",
+    ),
 }
 
 NOT_APPLICABLE = {}
